@@ -101,8 +101,11 @@ def run(tier, seed, build):
             dist["batches"] += 1
             n = rng.choice([2, 3, 4, 6, 8])
             cmds = []; expect = {}
+            # runs named with a dot (v.1, v.2, ...) next to a run named v: pepper-finish BASENAME with its defaults
+            for nm in ["v"] + ["v.%d" % k for k in range(n)]:
+                shutil.copy(os.path.join(root, "ref.save"), os.path.join(root, nm + ".save")); shutil.copy(os.path.join(root, "ref.mfe"), os.path.join(root, nm + ".mfe"))
             for k in range(n):
-                kind = rng.choice(["compile", "compile", "files", "files", "finish", "design"])
+                kind = rng.choice(["compile", "compile", "files", "files", "finish", "design", "finish_default"]) if k != 1 else "finish_default"
                 tn = rng.choice(["tmp%d" % k, "run.%d" % k, "t/../x%d" % k if False else "scr%d" % k])
                 if "." in tn: dist["dotted_tempnames"] += 1
                 if kind == "compile":
@@ -117,6 +120,11 @@ def run(tier, seed, build):
                 elif kind == "design":
                     cmds.append((kind, ["/venv/bin/pepper-design-spurious", "ref.pil", "-o", "d%d.mfe" % k, "-t", tn, "imax=15"],
                                  {"basename": "ref", "infilename": "ref.pil", "outfilename": "d%d.mfe" % k, "tempname": tn}))
+                elif kind == "finish_default":
+                    bn = "v.%d" % k
+                    dist["dotted_basenames"] = dist.get("dotted_basenames", 0) + 1
+                    cmds.append(("finish", ["/venv/bin/pepper-finish", rng.choice([bn, bn + ".mfe", bn + ".save"])],
+                                 {"savename": bn + ".save", "designname": bn + ".mfe", "seqsname": bn + ".seqs", "strandsname": None}))
                 else:
                     cmds.append((kind, ["/venv/bin/pepper-finish", "ref", "--design", "ref.mfe", "--seqs", "q%d.seqs" % k, "--strands", "st%d.txt" % k],
                                  {"savename": "ref.save", "designname": "ref.mfe", "seqsname": "q%d.seqs" % k, "strandsname": "st%d.txt" % k}))
@@ -163,7 +171,7 @@ def run(tier, seed, build):
     finally:
         shutil.rmtree(wd, ignore_errors=True)
     return {"evaluations": dist["processes_concurrent"] + dist["strace_runs"], "distinct_nontrivial": max(len(nontrivial), 0),
-            "rule": "batches of 2-8 command-line runs (pepper-compiler pil/des with distinct --output/--save, pepper-design-spurious --just-files and full designs with distinct -t names incl. dotted ones like run.1 / run.2, pepper-finish with distinct --seqs/--strands) on one generated system: started simultaneously in one directory and one after another in a copy, all files compared byte for byte (timestamp line and the random design outputs excluded); the first three commands of each batch also run under strace and their modified paths compared with the generated footprint. Non-trivial = batch",
+            "rule": "batches of 2-8 command-line runs (pepper-compiler pil/des with distinct --output/--save, pepper-design-spurious --just-files and full designs with distinct -t names incl. dotted ones like run.1 / run.2, pepper-finish with distinct --seqs/--strands, and pepper-finish BASENAME with default file names for dotted base names v.1, v.2 next to a run named v) on one generated system: started simultaneously in one directory and one after another in a copy, all files compared byte for byte (timestamp line and the random design outputs excluded); the first three commands of each batch also run under strace and their modified paths compared with the generated footprint. Non-trivial = batch",
             "samples": samples, "distribution": dist, "failures": failures, "gen_needed": ["Conc/FootprintGen.v"]}
 
 def replay(path):
